@@ -17,7 +17,14 @@ def srcViews : List (String × Codec × (Val → Val)) := [
   ("Counters", counters, view_Counters), ("CreatorStats", creatorStats, view_CreatorStats),
   ("ValidatorInfo", validatorInfo, view_ValidatorInfo), ("ShardIdent", shardIdent, view_ShardIdent),
   ("GlobalVersion", globalVersion, view_GlobalVersion), ("SplitMergeInfo", splitMergeInfo, view_SplitMergeInfo),
-  ("SigPubKey", sigPubKey, view_SigPubKey)]
+  ("SigPubKey", sigPubKey, view_SigPubKey),
+  ("AccStatusChange", accStatusChange, view_AccStatusChange), ("ComputeSkipReason", computeSkipReason, view_ComputeSkipReason),
+  ("TrStoragePhase", trStoragePhase, view_TrStoragePhase), ("TrComputePhase", trComputePhase, view_TrComputePhase),
+  ("TrBouncePhase", trBouncePhase, view_TrBouncePhase), ("FutureSplitMerge", futureSplitMerge, view_FutureSplitMerge),
+  ("IntermediateAddress", intermediateAddress, view_IntermediateAddress), ("ValidatorDescr", validatorDescr, view_ValidatorDescr),
+  ("CatchainConfig", catchainConfig, view_CatchainConfig),
+  -- validated against the spec value although not (yet) proved:
+  ("TrActionPhase", trActionPhase, view_TrActionPhase)]
 
 /-- `tlbsrc <Class> <dag> <node>` → `ok <value json> <remaining bits> <remaining refs>` | `none` :
     the regenerated reader of the class run on that (ordinary) cell -/
